@@ -81,7 +81,10 @@ def sanitizer_class(err):
     if fr:
         for name in resolve(fr[0][0], [o for _, o in fr]):
             if "TasGrid" in name or "Tasgrid" in name or "TasDREAM" in name:
-                fn = re.sub(r"<[^<>]*>", "", name.split("(")[0]).replace("void ", "").strip()
+                fn = name
+                for _ in range(6):
+                    fn = re.sub(r"<[^<>]*>", "", fn)
+                fn = fn.split("(")[0].replace("void ", "").strip()
                 break
     return "%s in %s" % (kind, fn)
 
@@ -438,11 +441,9 @@ def make_lattice(tier):
         L.append(g("makeglobal", "-mg", "makeglobal", sc(1, 3, type="ipcurved", rule="rleja"), [an([1, 2, 0, 1])]))
         L.append(g("makeglobal+conformal", "-mg", "makeglobal", sc(1, 2, type="level", rule="fejer2") + [["-conformaltype", "s", "ctype", "asin"]],
                    [["-conformalfile", "iv", "conformal", 1, 2, [4, 4]]]))
-        L.append(g("makeglobal", "-mg", "makeglobal", sc(1, 2, type="level", rule="chebyshev")))
         L.append(g("makesequence", "-ms", "makesequence", sc(1, 2, type="level", rule="min-delta"), [ll([1, 2])]))
         L.append(g("makesequence+out0", "-ms", "makesequence", sc(0, 2, type="level", rule="leja")))
         L.append(g("makelocalpoly", "-mp", "makelocalpoly", sc(1, 2, order=-1, rule="localp-zero")))
-        L.append(g("makelocalpoly", "-mp", "makelocalpoly", sc(1, 1, order=1, rule="localp-boundary")))
         L.append(g("makelocalpoly+out0", "-mp", "makelocalpoly", sc(0, 2, order=1, rule="localp")))
         L.append(g("makewavelet", "-mw", "makewavelet", sc(2, 1, order=3), [TR]))
         L.append(g("makewavelet+out0", "-mw", "makewavelet", sc(0, 1, order=1)))
